@@ -1,5 +1,6 @@
 """C15 -- inbound property (see properties.jsonl); parts, oracle and clauses in props/inbound_common.py"""
 from props import inbound_common as B
+from props import sink_common as SC
 
 RULE = ("sequences of peer packets (all packet kinds, ids 1..3, QoS 0/1/2, aliases, valid and invalid filters) "
         "interleaved with completions of gated publish handlers (ok / error / negative ack) and of the gated protocol "
@@ -17,12 +18,29 @@ WANT = ("C15",)
 
 
 def parts(tier, rng):
-    return B.make_parts(tier, rng, WANT)
+    out = B.make_parts(tier, rng, WANT)
+    # a busy endpoint: the DISCONNECT the sink layer writes when an acknowledgement breaks the rules (wrong id, wrong
+    # type, nothing outstanding) names an error, never normal disconnection
+    for p in SC.make_parts(tier, rng, {15}):
+        if p.ver == 5:
+            p.name = "busy-sink-" + p.name
+            out.append(p)
+    return out
 
 
 def replay_parts(rp):
+    if rp.get("engine", "").startswith("sink"):
+        return SC.replay_parts(rp, {15})
     return B.replay_parts(rp, WANT)
 
 
-known_signature = B.known_signature
-clause_text = B.clause_text
+def known_signature(part, case, impl_obs, oracle):
+    if isinstance(part, SC.SinkPart):
+        return None
+    return B.known_signature(part, case, impl_obs, oracle)
+
+
+def clause_text(part, oracle):
+    if isinstance(part, SC.SinkPart):
+        return SC.clause_text(part, oracle)
+    return B.clause_text(part, oracle)
